@@ -358,8 +358,15 @@ impl ArchiveManager {
         let filename = format!("data.{id:03}");
         let path = self.base_path.join(filename);
 
-        // Create empty file
-        File::create(&path)
+        // Create the file if it does not exist yet. A manager that has not run `open_all`
+        // gets here for a data file that already holds entries: it must be opened as it is
+        // (`File::create` would truncate it and destroy every stored object), so that
+        // `open_archive` puts the write position at its end.
+        OpenOptions::new()
+            .write(true)
+            .create(true)
+            .truncate(false)
+            .open(&path)
             .map_err(|e| StorageError::Archive(format!("Failed to create archive: {e}")))?;
 
         // Open it for memory mapping
